@@ -146,7 +146,7 @@ def gen_field(rng, fam=None, depth=1, families=None, allow_k5=False, cfg_items=F
         if r < 0.12:
             node["keyf"] = node["valf"] = None
         else:
-            kfam = rng.choice(["str", "str", "loglevel", "int", "host"]) if rng.random() < 0.85 else None
+            kfam = rng.choice(["str", "str", "loglevel", "int", "host", "bytes"]) if rng.random() < 0.85 else None
             node["keyf"] = gen_field(rng, kfam, 0, None, allow_k5) if kfam else None
             if node["keyf"]:
                 node["keyf"]["params"].pop("required", None)
